@@ -17,6 +17,27 @@ def make_case(ctx, i):
         victims = [d["name"] for d in m["defs"] if d["k"] == "object" and d["name"].startswith("O")]
         decoy = r.choice(victims)
         TG.rename_type(m, decoy, "Mutation")
+    # free text that needs escapes in JSON (and in SDL): descriptions everywhere, deprecation reasons
+    if r.chance(2, 3):
+        k = r.below(len(SG.AWKWARD))
+        m = SG.decorate(m, SG.AWKWARD[k:] + SG.AWKWARD[:k])
+    reasons = ["use \"name\" instead", "multi\nline", "back\\slash /", "uni \u00e9 \u4e2d \U0001F600", "*/ tricky", "tab\there"]
+
+    def awkward_reasons(holder):
+        for x in holder.get("dirs", []):
+            if x["name"] == "deprecated":
+                for a in x["args"]:
+                    if a["name"] == "reason" and a["v"]["k"] == "string" and r.chance(2, 3):
+                        a["v"] = G.v_str(r.choice(reasons))
+    for d in m["defs"]:
+        for f in d.get("fields", []):
+            awkward_reasons(f)
+            for a in f.get("args", []):
+                awkward_reasons(a)
+        for v in d.get("values", []):
+            awkward_reasons(v)
+        for f in d.get("inputFields", []):
+            awkward_reasons(f)
     scalar_cfg = {d["name"]: r.choice(["string", "number", {"send": "string | number", "receive": "string"}]) for d in m["defs"] if d["k"] == "scalar"}
     files = TG.split_files(m, r, 1 + r.below(3))
     for f in files:
